@@ -20,6 +20,13 @@ def mutate(rng, x, pool, n):
     offs = list(range(0, L)) if L <= 48 else sorted(set([0, 1, 2, L - 1, L - 2] + [rng.randrange(L) for _ in range(24)]))
     for o in offs:
         out.append(("trunc", x[:o]))
+    # every single-bit flip in the first three octets (extension bit, bitmaps, length determinants, preambles)
+    for bit in range(min(24, 8 * L)):
+        b = bytearray(x)
+        b[bit // 8] ^= 0x80 >> (bit % 8)
+        out.append(("headflip", bytes(b)))
+        if L > bit // 8 + 2:
+            out.append(("headflip+trunc", bytes(b[: rng.randrange(bit // 8 + 1, L)])))
     for _ in range(n):
         m = rng.choice(["flip", "flip", "set", "interesting", "interesting", "splice", "insert", "delete", "dup",
                         "count", "random", "extend"])
@@ -102,6 +109,7 @@ def run(tier, seed):
             chk.inconcl("module not built (%s)" % b.error[0])
             continue
         # ---- stage 1: corpus
+        values_by_cid = {}
         cases, meta = [], {}
         cid = 0
         for tname, t in b.mod.types.items():
@@ -113,11 +121,24 @@ def run(tier, seed):
                 ops = ["dec s=0 t=%s syn=BER in=%s" % (tname, drv.hx(ref))] + ["enc s=0 syn=%s" % s for s in ("OER", "UPER", "BXER")]
                 cases.append(drv.Case(cid, ops))
                 meta[cid] = (tname, t, ref)
+                values_by_cid[cid] = v
         res = drv.run_parallel(b.exe, cases, confirm=False)
         corpus = {}     # (tname, syn) -> list of bytes
+        from . import variants
+        from ..asn import der as _der
+        enc_ = _der.Encoder(b.mod)
         for cid, (tname, t, ref) in meta.items():
             r = res.get(cid)
             corpus.setdefault((tname, "BER"), []).append(ref)
+            # foreign but valid BER forms of the same value (indefinite lengths, constructed strings, unknown
+            # extension additions ...) as further mutation seeds: they reach the skipping / reassembly code
+            try:
+                v_ = values_by_cid[cid]
+                tree = enc_.tree(t, v_)
+                for fam, vb in (variants.ber_variants(rng, tree, 1) + variants.ber_semantic_variants(rng, b.mod, t, v_, enc_, 2))[:4]:
+                    corpus[(tname, "BER")].append(vb)
+            except Exception:
+                pass
             if r is None or r.status != "ok" or len(r.events) < 4:
                 continue
             for s, e in zip(("OER", "UPER", "BXER"), r.events[1:4]):
@@ -129,10 +150,10 @@ def run(tier, seed):
         pool = [x for xs in corpus.values() for x in xs]
         for (tname, syn), xs in corpus.items():
             t = b.mod.types[tname]
-            for x in xs[: (2 if quick else 4)]:
+            for x in (xs[:2] + xs[-3:] if quick else xs[:12]):
                 muts = mutate(rng, x, pool, nmut)
-                if quick and len(muts) > 30:
-                    muts = rng.sample(muts, 30)
+                if quick and len(muts) > 60:
+                    muts = rng.sample(muts, 60)
                 for mk, mb in muts:
                     cid += 1
                     ops = ["dec s=0 t=%s syn=%s in=%s" % (tname, syn, drv.hx(mb)), "prt s=0", "chk s=0 eb=64"] + \
